@@ -552,8 +552,11 @@ impl ErasedNode for Node {
         if self.is_stale() {
             state.recompute_heap.insert(self.packed());
         }
-        if let Some(Kind::Expert(expert)) = self.kind() {
-            expert.observability_change(true)
+        match self.kind() {
+            Some(Kind::Expert(expert)) => expert.observability_change(true),
+            // child_changed is not delivered while unlinked, so assume the projection changed
+            Some(Kind::MapRef(mapref)) => mapref.did_change.set(true),
+            _ => {}
         }
     }
 
@@ -637,7 +640,7 @@ impl ErasedNode for Node {
             Kind::MapRef(mapref) => {
                 // don't run child_changed on our parents, because we already did that in OUR child_changed.
                 self.value_opt.replace(None);
-                self.maybe_change_value_manual(None, mapref.did_change.get(), false, state)
+                self.maybe_change_value_manual(None, mapref.did_change.replace(false), false, state)
             }
             Kind::MapWithOld(map) => {
                 let input = map.input.value_as_any().unwrap();
@@ -1292,7 +1295,11 @@ impl ErasedNode for Node {
                 let did_change = self_old.map_or(true, |old| {
                     !self.cutoff.borrow_mut().should_cutoff(old, self_new)
                 });
-                mapref.did_change.set(did_change);
+                // accumulate: a pending change must survive later notifications
+                // that compare equal, until recompute consumes it.
+                if did_change {
+                    mapref.did_change.set(true);
+                }
                 // now we propagate to parent
                 // (but first, set the only_in_debug stuff & recomputed_at <- t.stabilisation_num)
                 let pci = self.parent_child_indices.borrow();
